@@ -136,6 +136,7 @@ class FindModel(Model):
         super().__init__(lambda i: None, steps=200000)
         self.F = F
         self.calls = {}
+        self._frames = []
 
     def closure(self, n, args, env):
         n = peel(n)
@@ -166,6 +167,8 @@ class FindModel(Model):
     def ev(self, n, env):
         n0 = peel(n)
         k = n0.get("k")
+        if k == "__val":
+            return n0["v"]
         if k == "Try":
             v = self.ev(n0["arg"], env)
             if v is None:
@@ -201,10 +204,32 @@ class FindModel(Model):
         if k == "Index":
             return self.index(self.ev(n0["arg"], env), self.ev(n0["index"], env))
         if k == "Call":
-            r = self.call(n0, env)
+            # one frame of evaluated arguments per call node: an argument with side effects (an iterator being advanced) is evaluated once,
+            # however many handlers look at it
+            self._frames.append({})
+            try:
+                r = self.call(n0, env)
+                if r is NotImplemented:
+                    cached = self._frames[-1]
+                    if cached:
+                        # the generic evaluator would evaluate the arguments again: hand it the values instead
+                        r = self.generic_call(n0, env, cached)
+            finally:
+                self._frames.pop()
             if r is not NotImplemented:
                 return r
         return super().ev(n, env)
+
+    def arg(self, n, i, env):
+        fr = self._frames[-1]
+        if i not in fr:
+            fr[i] = self.ev(n["args"][i], env)
+        return fr[i]
+
+    def generic_call(self, n, env, cached):
+        """the base evaluator's call handling, on a copy of the node whose already evaluated arguments are constants"""
+        args = [({"k": "__val", "v": cached[i]} if i in cached else a) for i, a in enumerate(n["args"])]
+        return Model.ev(self, dict(n, args=args), env)
 
     def index(self, base, idx):
         if isinstance(base, str) or (isinstance(base, tuple) and base and base[0] == "lit"):
@@ -226,7 +251,7 @@ class FindModel(Model):
         fn = n.get("fn") or ""
         args = n["args"]
         last = fn.split("::")[-1]
-        A_ = lambda i: self.ev(args[i], env)
+        A_ = lambda i: self.arg(n, i, env)
         if fn.endswith("Index::index") and len(args) == 2:
             b0 = A_(0)
             if isinstance(b0, str) or (isinstance(b0, tuple) and b0 and b0[0] in ("lit", "seq")):
